@@ -24,6 +24,8 @@ func TestVerif(t *testing.T) {
 	switch prop {
 	case "C05":
 		verifC05(t, r, out)
+	case "C12":
+		verifC12(t, r, out)
 	default:
 		t.Fatalf("unknown VERIF_PROP %q for package corerad", prop)
 	}
